@@ -161,6 +161,15 @@ void h_weighted(void)
         double mn = 0, mx = 0; int first = 1;
         for (int i = 0; i < K; i++) if (w[i] > 0.0) { if (first || x[i] < mn) mn = x[i]; if (first || x[i] > mx) mx = x[i]; first = 0; }
         sym_assert(cmb_wtdsummary_min(&ws) == mn && cmb_wtdsummary_max(&ws) == mx, "weighted min/max ignore zero-weight samples");
+#ifdef MOMENTS
+        /* the weighted central moment sums by their definition (independent of how the statistics are normalised) */
+        const struct cmb_datasummary *wd = (const struct cmb_datasummary *)&ws;
+        double mu = wmean(K), s2 = 0, s3 = 0, s4 = 0;
+        for (int i = 0; i < K; i++) { double d = x[i] - mu; s2 += w[i] * d * d; s3 += w[i] * d * d * d; s4 += w[i] * d * d * d * d; }
+        sym_assert(EQ(wd->m2, s2), "weighted second central moment sum equals its definition");
+        sym_assert(EQ(wd->m3, s3), "weighted third central moment sum equals its definition");
+        sym_assert(EQ(wd->m4, s4), "weighted fourth central moment sum equals its definition");
+#endif
     }
 }
 
